@@ -383,6 +383,9 @@ func (procHarness) Gen(seed uint64, prop, tier string) *simkit.Program {
 		return p
 	}
 	p.Cfg["govchain"] = gc
+	// the node signs through the Cloud KMS signer's conversion code in half of the runs (not drawn
+	// from r: the programs of a seed stay what they were before this was added)
+	p.Cfg["kmssig"] = int64(simkit.Hash64(seed, "kmssig") % 2)
 	if (prop == "C13" || prop == "C14") && r.P(0.3) {
 		p.Cfg["notifier"] = 1
 	}
